@@ -560,6 +560,11 @@ func MutationCases(reg *Registry, envelopeOnly bool) []Case {
 		}
 		if b.method == "tools/call" {
 			add(caseOf(reg, "mut:"+b.label+":params.name:empty", env(id, b.method, vp(b.params.With("name", Str("")))), "mutation", "param:name"))
+			// `arguments` as a string: empty, blank, a string that HOLDS JSON (an object, null, an array, a number) — a
+			// string is not an object, whatever it spells
+			for i, sv := range []string{"", " ", " \t\n ", "{}", `{"a":1}`, ` {"x":1,"s":"v"} `, "null", "[]", "[1]", "0", "true", `"x"`, "{", `{"a":1}{"b":2}`} {
+				add(caseOf(reg, fmt.Sprintf("mut:%s:params.arguments:string-%d", b.label, i), env(id, b.method, vp(b.params.With("arguments", Str(sv)))), "mutation", "param:arguments", "arguments-as-string"))
+			}
 		}
 	}
 	whole := []struct {
